@@ -43,3 +43,31 @@ def register(reg):
             ),
         ),
     )
+
+
+def _replay_then(model, clause, res):
+    import json
+
+    return f"""import sys; sys.path.insert(0, '/verif/replay')
+from lib import *
+MODEL = json.loads({json.dumps(json.dumps(model))}) if False else {model!r}
+a, b = build(MODEL['self']), build(MODEL['next'])
+print('inputs:', a, b)
+try:
+    r = a.then(b)
+except Exception as e:
+    reproduced(f'{{a!r}}.then({{b!r}}) raised {{type(e).__name__}}: {{e}} (clause {clause})')
+for n in range(0, 12):
+    xs = list(range(n))
+    if xs[a.start:a.stop][b.start:b.stop] != xs[r.start:r.stop]:
+        reproduced(f'{{a!r}}.then({{b!r}}) = {{r!r}} selects different rows for n={{n}}')
+not_reproduced()
+"""
+
+
+_prev_register = register
+
+
+def register(reg):  # noqa: F811
+    _prev_register(reg)
+    reg.replay["_operations._slice:Slice.then"] = _replay_then
